@@ -30,11 +30,12 @@ pub fn print_child(threads: usize, calls: usize, stream: &str) {
                 }
                 // one stream object per thread that is kept and reused for some of the calls (state carried by the object must not
                 // delay bytes of a finished call)
+                let pass = std::env::var_os("CLICOLOR_FORCE").is_some();
                 let mut kept_out = anstream::stdout();
                 let mut kept_err = anstream::stderr();
                 for c in 1..=calls {
                     let pad = "x".repeat(r.below(40));
-                    let kind = (c + t) % 11;
+                    let kind = (c + t) % 13;
                     // calls that end with a newline of their own (println!, a "\n" in the format string, writeln!, a record ending in
                     // "\n") announce 4 fragments: the newline right after the third is the fourth and belongs to the same call
                     let n = if matches!(kind, 0 | 1 | 2 | 4) { 4 } else { 3 };
@@ -79,6 +80,27 @@ pub fn print_child(threads: usize, calls: usize, stream: &str) {
                                 kept_err.write_all(&rec).unwrap();
                                 kept_err.write_all(rest).unwrap();
                             }
+                        }
+                        11 => {
+                            // write_all on the KEPT stream object of a buffer that ends INSIDE an escape sequence ("ESC ["); the rest ("0m")
+                            // opens the next buffer.  In pass-through mode the two bytes belong to this call (second fragment); when
+                            // stripping they produce nothing.  Whatever the object remembers must not leak into other threads' prints.
+                            let mut rec = frag(t, c, 1, if pass { 2 } else { 1 }, &pad).into_bytes();
+                            rec.extend_from_slice(b"\x1b[");
+                            let rest = b"0m\n";
+                            if stream == "stdout" {
+                                kept_out.write_all(&rec).unwrap();
+                                kept_out.write_all(rest).unwrap();
+                            } else {
+                                kept_err.write_all(&rec).unwrap();
+                                kept_err.write_all(rest).unwrap();
+                            }
+                        }
+                        12 => {
+                            // ONE write_all of escape-free text that contains controls which are not shown (BEL, BS): when stripping, the
+                            // buffer falls into several runs - still one call
+                            let rec = format!("{}\x07{}\x08{}\n", frag(t, c, 1, 3, &pad), frag(t, c, 2, 3, "mid"), frag(t, c, 3, 3, "end"));
+                            if stream == "stdout" { anstream::stdout().write_all(rec.as_bytes()).unwrap() } else { anstream::stderr().write_all(rec.as_bytes()).unwrap() }
                         }
                         7 => {
                             // a stream built over a BORROWED process stream locks it per call just the same
